@@ -62,6 +62,26 @@ func init() {
 	}, Explanation: "wip"})
 }
 
+func init() {
+	registerProp(&propDef{ID: "C06", Rules: func(c *Ctx) {
+		c.ruleReqResult()
+		c.ruleFactExport()
+		c.ruleFactSchema()
+		c.ruleFactType()
+		c.ruleImportScope()
+		c.ruleIterPackages()
+		c.ruleIndexSrc()
+	}, Explanation: "wip"})
+}
+
+func init() {
+	registerProp(&propDef{ID: "C16", Rules: func(c *Ctx) {
+		c.ruleIgnoreSetContains()
+		c.ruleIgnoreSetAdd()
+		c.ruleHierarchy()
+	}, Explanation: "wip"})
+}
+
 func cmdCheck(args []string) int {
 	prop, tier := "", "quick"
 	for i := 0; i < len(args); i++ {
